@@ -23,6 +23,76 @@ PURE_SKELETON = ("Parser::error", "Parser::open", "Parser::close", "Parser::clos
                  "Parser::close_error_node", "Parser::is_skipped", "Parser::delete_node")
 
 
+def _places(x, out):
+    if isinstance(x, dict):
+        if isinstance(x.get("l"), int) and isinstance(x.get("p"), list):
+            out.add(x["l"])
+            for q in x["p"]:
+                _places(q, out)
+            return
+        for v in x.values():
+            _places(v, out)
+    elif isinstance(x, list):
+        for v in x:
+            _places(v, out)
+
+
+_LIVE = {}
+
+
+def live_in(body):
+    """classic backward liveness of MIR locals per block (used only to forget dead tracked constants)"""
+    c = _LIVE.get(id(body))
+    if c is not None:
+        return c
+    use, dfn = {}, {}
+    for b, blk in enumerate(body.blocks):
+        u, d = set(), set()
+        def rd(x):
+            tmp = set()
+            _places(x, tmp)
+            for l in tmp:
+                if l not in d:
+                    u.add(l)
+        for st in blk["s"]:
+            if "rv" in st:
+                rd(st["rv"])
+                a = st["a"]
+                if a["p"]:
+                    rd(a)
+                else:
+                    d.add(a["l"])
+            else:
+                rd(st)
+        t = blk["t"]
+        dest = t.get("dest")
+        rd({k: v for k, v in t.items() if k != "dest"})
+        if dest is not None:
+            if dest["p"]:
+                rd(dest)
+            else:
+                d.add(dest["l"])
+        if t.get("t") == "return":
+            if 0 not in d:
+                u.add(0)
+        use[b], dfn[b] = u, d
+    live = {b: set(use[b]) for b in use}
+    changed = True
+    succs = {b: [x for x, _ in body.succ_edges(b)] for b in use}
+    while changed:
+        changed = False
+        for b in reversed(range(len(body.blocks))):
+            out = set()
+            for s_ in succs[b]:
+                out |= live[s_]
+            n = use[b] | (out - dfn[b])
+            if n != live[b]:
+                live[b] = n
+                changed = True
+    _LIVE[id(body)] = live
+    return live
+
+
 class Finding:
     __slots__ = ("rule", "key", "msg", "site", "witness")
 
@@ -217,6 +287,7 @@ class Gpai:
         T0 = self.entryT[key]
         pr = P(body)
         loops = {L["header"]: L for L in body.loops()}
+        LIVE = live_in(body)
         # state: dict block -> dict(dkey -> T)   dkey = (consumed, flag, vals, loops, snap)
         IN = defaultdict(dict)
         d0 = (False, flag0, (), frozenset(), None)
@@ -259,6 +330,7 @@ class Gpai:
                 vals = dict(vals)
                 # loop header bookkeeping
                 if b in loops:
+                    self.sites["P2"].add((relname, b))
                     if b in lps:
                         self.report("P2", "%s|loop-without-consumption" % relname,
                                     "%s: %s has a loop (header bb%d) that can go round without consuming a token while current in %s: the parser would not terminate" % (
@@ -329,7 +401,9 @@ class Gpai:
                     c2, f2, v2, l2, s2 = dk2
                     l3 = frozenset(h for h in l2 if tgt in loops[h]["body"]) if l2 else l2
                     # drop values of temporaries that are dead (not used in target) -- keep it simple: keep all named + small
-                    dk3 = (c2, f2, v2, l3, s2)
+                    lv = LIVE[tgt]
+                    v3 = tuple(kv for kv in v2 if kv[0] in lv)
+                    dk3 = (c2, f2, v3, l3, s2)
                     cur = IN[tgt].get(dk3)
                     newT = T2 if cur is None else (cur | T2)
                     if cur is None or newT != cur:
